@@ -17,7 +17,7 @@ from vk.ddmin import minimise_text
 
 LEVEL = 'exploration'
 RULE = ('programs: corpus + Annex A derivations rendered in 5 layouts (multi-line tokens, mixed line terminators, '
-        'comments before tokens); a case = one accepted text on which the real tree equals the reference tree; '
+        'comments before tokens), 22 texts without any token; a case = one accepted text on which the real tree equals the reference tree; '
         'non-trivial = the tree has at least 5 nodes; distinct by text.')
 ASSUMPTIONS = ['refjs token extents (first token, operator token) for the same tree shape; cases where the two trees '
                'differ are skipped and counted (that is C03\'s to report)',
